@@ -168,8 +168,10 @@ class USMSecurityParameters:
             OctetString,
             OctetString,
         )
+        # The application types (TimeTicks, Opaque, ...) are subclasses of
+        # these but do not carry the same Python values: match exactly.
         if len(seq) != len(expected) or not all(
-            isinstance(item, cls) for item, cls in zip(seq, expected)
+            type(item) is cls for item, cls in zip(seq, expected)
         ):
             raise USMError("Malformed USM security parameters: %r" % (seq,))
         return USMSecurityParameters(
